@@ -135,3 +135,71 @@ package bfe_http2
 //@   nopanic
 //@   modifies nothing
 //@   ensures result1 == nil && typeis(result0, "*UnknownFrame") && sameslice(unbox(result0, "*UnknownFrame").p, p)
+
+// ---- C33: inbound flow control accounting (policy skeleton over the real serve-loop functions) ----
+
+//@ func (*DataFrame).Data
+//@   props C33
+//@   requires f != nil
+//@   frame checkValid pure
+//@   modifies nothing
+//@   ensures sameslice(result0, f.data)
+
+//@ func (*DataFrame).StreamEnded
+//@   props C33
+//@   requires f != nil
+//@   modifies nothing
+
+//@ func (*serverConn).sendWindowUpdate32
+//@   props C33
+//@   requires sc != nil && n >= 0
+//@   frame Check pure
+//@   frame writeFrame keeps sc.inflow.n, st.inflow.n
+//@   note scheduling a WINDOW_UPDATE frame (writeFrame) is assumed not to touch the two inbound windows it announces
+//@   modifies *
+//@   ensures[connection_window_reopened_by_n] st == nil ==> sc.inflow.n == old(sc.inflow.n) + n
+//@   ensures[stream_window_reopened_by_n] st != nil ==> st.inflow.n == old(st.inflow.n) + n && sc.inflow.n == old(sc.inflow.n)
+
+//@ func (*serverConn).sendWindowUpdate
+//@   props C33
+//@   requires sc != nil && 0 <= n && n < 2147483647
+//@   frame Check pure
+//@   modifies *
+//@   ensures[connection_window_reopened_by_n] st == nil ==> sc.inflow.n == old(sc.inflow.n) + n
+//@   ensures[stream_window_reopened_by_n] st != nil ==> st.inflow.n == old(st.inflow.n) + n && sc.inflow.n == old(sc.inflow.n)
+//@   loop 1 invariant n == old(n) && sc.inflow.n == old(sc.inflow.n) && (st != nil ==> st.inflow.n == old(st.inflow.n))
+
+//@ func (*serverConn).noteBodyRead
+//@   props C33
+//@   requires sc != nil && st != nil && st.inflow.conn == embed(sc, "inflow") && 0 <= n && n < 2147483647
+//@   frame Check pure
+//@   modifies *
+//@   ensures[consumed_octets_returned_to_the_connection_window] sc.inflow.n == old(sc.inflow.n) + n
+
+//@ func (*serverConn).processData
+//@   props C33
+//@   requires sc != nil && f != nil && f.Length <= 16777215 && len(f.data) <= int(f.Length)
+//@   requires sc.inflow.conn == nil
+//@   requires forall id uint32 :: has(sc.streams, id) ==> sc.streams[id] != nil && sc.streams[id].inflow.conn == embed(sc, "inflow") && embed(sc.streams[id], "inflow") != embed(sc, "inflow")
+//@   frame Check pure
+//@   frame Write keeps any flow.n
+//@   frame CloseWithError keeps any flow.n
+//@   frame endStream keeps any flow.n
+//@   note writing to / closing the request-body pipe and ending the stream are assumed not to touch any flow-control window
+//@   modifies *
+//@   ensures[a_refused_frame_keeps_at_most_the_octets_already_buffered] result0 != nil ==> old(sc.inflow.n) - int32(len(old(f.data))) <= sc.inflow.n && sc.inflow.n <= old(sc.inflow.n)
+//@   ensures[data_for_an_unknown_stream_costs_nothing] result0 != nil && !old(has(sc.streams, f.StreamID)) ==> sc.inflow.n == old(sc.inflow.n)
+//@   ensures[an_accepted_frame_costs_at_most_its_data_octets] result0 == nil ==> sc.inflow.n == old(sc.inflow.n) || sc.inflow.n == old(sc.inflow.n) - int32(len(old(f.data)))
+
+//@ type FrameHeader
+//@   props C33
+//@   immutable Length, StreamID, Type, Flags
+//@ type DataFrame
+//@   props C33
+//@   immutable data
+
+//@ func (FrameHeader).Header
+//@   props C32,C33
+//@   nopanic
+//@   modifies nothing
+//@   ensures result0 == h
